@@ -706,12 +706,15 @@ def c19(seed, tier):
     ss = [Fraction(k, 4) for k in range(-40, 200) if k != 4] + [1 + sg * Fraction(1, 1 << j) for j in (10, 30) for sg in (1, -1)] + \
          [Fraction(-k) - Fraction(1, 2) for k in range(1, 60, 7)] + [Fraction(300), Fraction(1001, 2)]
     xs2 = [Fraction(k, 16) for k in range(-64, 17)] + [Fraction(-1000), 1 - Fraction(1, 1 << 20), Fraction(1, 1 << 40)]
-    precs = (10, 24, 53, 113) if tier == 'quick' else (10, 11, 24, 53, 64, 113, 200, 400, 1000)
+    precs = (10, 24, 53, 113, 300) if tier == 'quick' else (10, 11, 24, 53, 64, 113, 200, 300, 400, 1000)
     try:
         for prec in precs:
             mp.prec = prec
             bound = Fraction(2) ** (8 - prec)
-            for s in (ss if prec <= 113 else ss[::6]):
+            # integer s tied to the precision: the integer-argument shortcuts of mpf_zeta_int switch at s ~ 0.43*(p+20) and s > p+20
+            srel = [Fraction(k) for k in sorted(set(list(range(int(0.3 * (prec + 20)), int(0.5 * (prec + 20)) + 1)) +
+                                                     [int(c * (prec + 20)) + d for c in (1.0, 1.1) for d in (-1, 0, 1, 2)])) if k >= 2]
+            for s in (ss if prec <= 113 else ss[::6]) + srel:
                 sm = _mk(mp, s)
                 lo, hi = mpfr.enclose('zeta', [s], prec)
                 r = _safe(mp.zeta, sm)
@@ -770,6 +773,13 @@ def c21(seed, tier):
             mp.prec = prec
             bound = Fraction(2) ** (8 - prec)
             sub = xs if prec <= 113 else xs[::5]
+            small = [Fraction(1, 1024), Fraction(1, 512), Fraction(1, 128), Fraction(3, 256), Fraction(1, 64)]
+            for x in small:
+                xm = _mk(mp, x)
+                for nn in (3, 8, 9, 10, 12, 15, 19, 25):
+                    lo, hi = mpfr.enclose('jn', [('si', nn), x], prec)
+                    r = _safe(mp.besselj, nn, xm)
+                    _rel_check(mp, fails, 'besselj', '%d, %s' % (nn, x), prec, r, lo, hi, bound, cnt)
             for x in sub:
                 xm = _mk(mp, x)
                 for nn in (0, 1, 2, 5, 17):
@@ -788,7 +798,7 @@ def c21(seed, tier):
     finally:
         mp.prec = 53
     return cnt[0], cnt[0], fails, [{'fn': 'besselj', 'x': '0, 1', 'prec': 53}], \
-        ('real arguments only: besselj(n, x), bessely(n, x) for n in {0, 1, 2, 5, 17} and %d positive x (2^-60 .. 333), airyai on [-40, 40]; '
+        ('real arguments only: besselj(n, x), bessely(n, x) for n in {0, 1, 2, 5, 17} and %d positive x (2^-60 .. 333) plus orders 3..25 at small x (1/1024 .. 1/64), airyai on [-40, 40]; '
          'precisions %s; %d inputs skipped (enclosure straddles zero: the functions oscillate); reference MPFR %s.  Not covered: non-integer and '
          'complex orders and arguments, besseli/k, hankel, airybi, derivatives, struve, kelvin, scorer, coulomb, anger/weber, lommel, the zero finders'
          % (len(xs), list(precs), cnt[1], mpfr_version()))
